@@ -36,6 +36,7 @@ def term_source(pid: str, tier: str):
     out += [("NAMES", t) for t in F.names_terms(tier)]
     out += [("SCALE", t) for t in F.scale_terms(tier)]
     out += [("TWICE", t) for t in F.twice_terms(tier)]
+    out += [("VANISH", t) for t in F.vanish_terms(tier)]
     if pid in ("C01", "C02", "C08", "C17"):
         out += [("ARITH", t) for t in F.arith_terms(tier)]
     seen = set()
